@@ -135,12 +135,20 @@ package types
 
 // C04: a transaction is acceptable at time t only inside its expiry window: t <= expiration <= t + MaxTxLifeTime
 // box payloads are JSON-decoded into freshly allocated objects: nothing that exists is written (assumed)
-//@ func checkBoxTx   trusted
+// json.Unmarshal leaves a nil pointer for a JSON null element; a non-null sub-transaction has its required fields (gen_tx_json.go)
+//@ func checkBoxTx
+//@   props C04 C02 C15
 //@   modifies nothing
+//@   opt assume-frame
+//@   requires params.MinGasPrice != nil
+//@   ensures result == nil ==> allSubsPresent(content(txdata))
+//@   invariant @loop 0: 0 <= $k && $k <= len(box.SubTxList) && forall(i, 0, $k, box.SubTxList[i] != nil)
+//@   nopanic
 
 // the transaction id: keccak over the RLP of the transaction (T5); a transaction object is treated as immutable
 //@ func (*Transaction).Hash   pure trusted
 //@   opt heap-independent
+//@   requires tx != nil
 
 //@ func (*Transaction).VerifyTxBody
 //@   props C04
@@ -149,10 +157,20 @@ package types
 //@   requires tx != nil && tx.data.GasPrice != nil && tx.data.Amount != nil && params.MinGasPrice != nil
 //@   ensures err == nil ==> timeStamp <= old(tx.data.Expiration) && old(tx.data.Expiration) - timeStamp <= 1800
 //@   ensures err == nil ==> old(tx.data.ChainID) == chainID && old(val(tx.data.Amount)) >= 0 && old(len(tx.data.RecipientName)) <= 100 && old(len(tx.data.Message)) <= 1024
+//@   ensures err == nil ==> old(boxOK(tx))
 
+// JSON decoding of a box payload is a function of the payload bytes (uninterpreted): whether it fails and whether every element of
+// the sub-transaction list is present (a JSON null is decoded to a nil pointer).  Non-null ones have their required fields.
+//@ spec func boxBad(c [0]byte) bool
+//@ spec func allSubsPresent(c [0]byte) bool
+//@ pred boxOK(tx *Transaction) = tx.data.Type != params.BoxTx || boxBad(content(tx.data.Data)) || allSubsPresent(content(tx.data.Data))
 //@ func GetBox   trusted
 //@   modifies nothing
+//@   ensures result1 != nil <==> boxBad(content(txData))
 //@   ensures result1 == nil ==> result0 != nil
+//@   ensures result1 == nil && allSubsPresent(content(txData)) ==> forall(i, 0, len(result0.SubTxList), result0.SubTxList[i] != nil)
+//@   ensures result1 == nil && !allSubsPresent(content(txData)) ==> exists(i, 0, len(result0.SubTxList), result0.SubTxList[i] == nil)
+//@   ensures result1 == nil ==> forall(i, 0, len(result0.SubTxList), result0.SubTxList[i] != nil ==> result0.SubTxList[i].data.GasPrice != nil && result0.SubTxList[i].data.Amount != nil)
 
 // merkle root over the transaction ids (common/merkle, C17): a function of the ordered list of transaction objects
 //@ func (Transactions).MerkleRootSha   pure trusted
